@@ -35,6 +35,8 @@ import ast
 
 import z3
 
+from .core import guarded_check
+
 from . import sym
 from .model import Closure, Env, PyObj, SpecFunc
 from .sym import TArr, TBool, TDict, TFunc, TInt, TList, TOpt, TRef, TTuple, TAny, Unsupported, V
@@ -279,7 +281,7 @@ class DictIterMixin:
             chk = z3.Solver()
             chk.set("timeout", 2000)
             chk.add(z3.Not(van))
-            if chk.check() != z3.unsat:
+            if guarded_check(chk, 500) != z3.unsat:
                 continue
             fps = self.ctx.fresh_const(z3.ArraySort(z3.IntSort(), z3.IntSort()), tag + "_fps_" + ds.counter)
             A(z3.Select(fps, 0) == 0)
